@@ -87,6 +87,11 @@ func outcomesWalk(info *types.Info, body *ast.BlockStmt, atom ast.Expr, val bool
 			switch x.Op {
 			case token.LAND, token.LOR:
 				a, b := decide(x.X, env), decide(x.Y, env)
+				// the atom stands right of the short circuit: it was only evaluated (and the walk is about the runs
+				// where it was) with the left operand true for &&, false for ||
+				if atom != nil && !a.known && contains(x.Y, atom) {
+					a = tv{x.Op == token.LAND, true}
+				}
 				if x.Op == token.LAND {
 					if (a.known && !a.v) || (b.known && !b.v) {
 						return tv{false, true}
